@@ -608,7 +608,7 @@ def judge_auto_windows(ctx, data, center, width, fit_parameters, result, tag):
         if inside:
             if not a <= p[i] <= b:
                 ctx.violation('auto_window_excludes_estimate',
-                              f'window {i} = [{a!r}, {b!r}] does not contain its estimate {p[i]!r}', case)
+                              f'window {i} = [{a!r}, {b!r}] does not contain its estimate {float(p[i])!r}', case)
         else:
             ctx.count('auto_window_of_outside_estimate')
         if i > 0:
@@ -617,7 +617,7 @@ def judge_auto_windows(ctx, data, center, width, fit_parameters, result, tag):
             elif a < lo_s[i] - slack:
                 ctx.violation('auto_window_too_close_to_neighbour',
                               f'left edge {a!r} of window {i} is closer than {f!r} x gap to estimate '
-                              f'{p[i - 1]!r} (limit {lo_s[i]!r})', case, side='left')
+                              f'{float(p[i - 1])!r} (limit {float(lo_s[i])!r})', case, side='left')
             else:
                 ctx.event('auto_window_separation')
         if i + 1 < len(p):
@@ -626,7 +626,7 @@ def judge_auto_windows(ctx, data, center, width, fit_parameters, result, tag):
             elif b > hi_s[i] + slack:
                 ctx.violation('auto_window_too_close_to_neighbour',
                               f'right edge {b!r} of window {i} is closer than {f!r} x gap to estimate '
-                              f'{p[i + 1]!r} (limit {hi_s[i]!r})', case, side='right')
+                              f'{float(p[i + 1])!r} (limit {float(hi_s[i])!r})', case, side='right')
             else:
                 ctx.event('auto_window_separation')
 
@@ -685,7 +685,7 @@ def make_remove_monitor(ctx, tag):
         if not np.all(same):
             j = int(np.flatnonzero(outside)[np.argmin(same)])
             ctx.violation('remove_changed_outside', f'{int((~same).sum())} points outside every '
-                          f'successful window changed, e.g. x = {x[j]!r}: {y0[j]!r} -> {got[j]!r}',
+                          f'successful window changed, e.g. x = {float(x[j])!r}: {float(y0[j])!r} -> {float(got[j])!r}',
                           {**base, 'index': j}, n_successful=len(succ))
         if covered.any():
             heights = np.zeros(len(x))
@@ -706,8 +706,8 @@ def make_remove_monitor(ctx, tag):
             if np.any(badm):
                 j = int(idx[np.argmax(d[idx] - tol[idx])])
                 ctx.violation('remove_wrong_inside', f'{int(badm.sum())} points inside successful '
-                              f'windows are not data minus the fitted peak(s), e.g. x = {x[j]!r}: got '
-                              f'{got[j]!r}, expected {float(exp[j])!r} (data {y0[j]!r})',
+                              f'windows are not data minus the fitted peak(s), e.g. x = {float(x[j])!r}: got '
+                              f'{float(got[j])!r}, expected {float(exp[j])!r} (data {float(y0[j])!r})',
                               {**base, 'index': j}, covering_windows=int(ncov[j]))
 
     return on_start, on_return
